@@ -1,4 +1,4 @@
-"""C14 -- rope's view of source text agrees with the tokenizer (RCA rules R14.1-R14.15)."""
+"""C14 -- rope's view of source text agrees with the tokenizer (RCA rules R14.1-R14.16)."""
 from __future__ import annotations
 
 import ast
@@ -24,6 +24,7 @@ EXPLANATION = (
     " R14.11: the language of rope's string-literal body pattern equals the tokenizer's, lookaheads included (exact, derivative engine sa/rederiv.py).  R14.12: the scanners feeding the bracket counters match all six bracket characters.  R14.13: in the logical-line scanner '#' and brackets act only on CFG paths where the in-string state was tested off."
     ' R14.14 (=R06.9): returned text comes from the raw source.  R14.15: blank lines are skipped only between logical lines, never while one is open.'
 )
+EXPLANATION += ' R14.16: a whole-text bracket scan over the simplified text (where f-strings survive) reads the string regions; the backward bracket searches of the word finder step over strings through a quote-testing method.'
 ASSUMPTIONS = ["tokenize's own Comment pattern and _all_string_prefixes() are the oracle for the token language"]
 
 Lin = Dict[str, int]  # linear form: symbol -> coefficient, "" -> constant
@@ -283,20 +284,23 @@ def check(ctx, res) -> None:
                 continue
             opens: Set[str] = set()
             closes: Set[str] = set()
-            for n in walk_local(f.node):
-                if not isinstance(n, ast.If):
+            if not any(isinstance(x, ast.AugAssign) for x in walk_local(f.node)):
+                continue
+            fcfg = CFG(f.node)
+            for nd in fcfg.nodes:  # every +1 / -1 step, with the character test it is taken under (read off the guards)
+                st = nd.ast
+                if nd.kind != "stmt" or not (isinstance(st, ast.AugAssign) and isinstance(st.value, ast.Constant) and st.value.value == 1
+                                             and isinstance(st.op, (ast.Add, ast.Sub))):
                     continue
-                t = n.test
-                chars = None
-                if isinstance(t, ast.Compare) and isinstance(t.ops[0], ast.In) and const_str(t.comparators[0]) is not None:
-                    chars = const_str(t.comparators[0])
-                elif isinstance(t, ast.Compare) and isinstance(t.ops[0], ast.Eq) and const_str(t.comparators[0]) is not None:
-                    chars = const_str(t.comparators[0])
-                if not chars or not set(chars) <= set("()[]{}"):
-                    continue
-                for st in n.body:
-                    if isinstance(st, ast.AugAssign) and isinstance(st.value, ast.Constant) and st.value.value == 1:
-                        (opens if isinstance(st.op, ast.Add) else closes).update(chars)
+                for t, pol in fcfg.guards(nd.id):
+                    if not pol or not isinstance(t, ast.Compare) or len(t.ops) != 1:
+                        continue
+                    chars = None
+                    if isinstance(t.ops[0], (ast.In, ast.Eq)) and const_str(t.comparators[0]) is not None:
+                        chars = const_str(t.comparators[0])
+                    if not chars or not set(chars) <= set("()[]{}"):
+                        continue
+                    (opens if isinstance(st.op, ast.Add) else closes).update(chars)
             if len(opens | closes) < 2:
                 continue
             n4 += 1
@@ -317,6 +321,7 @@ def check(ctx, res) -> None:
 
     # ---- R14.6 line tables split at '\\n' only
     line_table_rule(ctx, res, "R14.6")
+    fstring_aware_bracket_rule(ctx, res, "R14.16")
 
     escape_parity_rule(ctx, res, "R14.5")
 
@@ -428,8 +433,11 @@ def fstring_prefix_rule(ctx, res, rule: str) -> None:
     rcf = idx.need_func("rope.base.simplify.real_code")
     keep_nodes = []
     rcfg = CFG(rcf.node)
+    # the replacement text is the variable handed to add_change(start, end, <text>); `<text> = None` keeps the string
+    texts = {c.args[2].id for c in calls_in(rcf.node) if call_name(c) == "add_change" and len(c.args) == 3 and isinstance(c.args[2], ast.Name)}
     for nd in rcfg.nodes:
         if nd.kind == "stmt" and isinstance(nd.ast, ast.Assign) and isinstance(nd.ast.value, ast.Constant) and nd.ast.value.value is None \
+                and any(isinstance(t, ast.Name) and t.id in texts for t in nd.ast.targets) \
                 and any(pol and True for _, pol in rcfg.guards(nd.id)):
             keep_nodes.append(nd)
     if not keep_nodes:
@@ -529,3 +537,141 @@ def escape_parity_rule(ctx, res, rule: str) -> None:
     from .common import raw_text_rule
 
     raw_text_rule(ctx, res, "R14.14")
+
+
+def _region_derived(idx, f, depth: int = 0) -> Set[str]:
+    """names of `f` that hold values collected from the string regions: filled in a loop over `ignored_regions(...)`,
+    assigned from it, or a parameter that every caller in the module fills with such a name"""
+    derived: Set[str] = set()
+    for x in walk_local(f.node):
+        if isinstance(x, (ast.For, ast.comprehension)) and any(isinstance(k, ast.Call) and call_name(k) == "ignored_regions" for k in ast.walk(x.iter)):
+            body = x.body if isinstance(x, ast.For) else []
+            for st in body:
+                for y in ast.walk(st):
+                    if isinstance(y, ast.Call) and isinstance(y.func, ast.Attribute) and y.func.attr in ("append", "add", "extend") and isinstance(y.func.value, ast.Name):
+                        derived.add(y.func.value.id)
+                    if isinstance(y, ast.Assign) and isinstance(y.targets[0], ast.Subscript) and isinstance(y.targets[0].value, ast.Name):
+                        derived.add(y.targets[0].value.id)
+        if isinstance(x, ast.Assign) and len(x.targets) == 1 and isinstance(x.targets[0], ast.Name) \
+                and any(isinstance(k, ast.Call) and call_name(k) == "ignored_regions" for k in ast.walk(x.value)):
+            derived.add(x.targets[0].id)
+    if depth < 2:
+        params = f.call_params()
+        sites = []
+        for g in idx.functions.values():
+            if g.unit is not f.unit or g is f:
+                continue
+            for c in calls_in(g.node):
+                if call_name(c) == f.name and (isinstance(c.func, ast.Name) or is_self_attr(c.func)):
+                    sites.append((g, c))
+        for i, p in enumerate(params):
+            if sites and all(
+                    (i < len(c.args) and isinstance(c.args[i], ast.Name) and c.args[i].id in _region_derived(idx, g, depth + 1))
+                    or any(k.arg == p and isinstance(k.value, ast.Name) and k.value.id in _region_derived(idx, g, depth + 1) for k in c.keywords)
+                    for g, c in sites):
+                derived.add(p)
+    return derived
+
+
+def fstring_aware_bracket_rule(ctx, res, rule: str = "R14.16") -> None:
+    """R14.16: `simplify.real_code` blanks plain strings but KEEPS f-strings, so that names inside them can be found.  In the
+    simplified text (and in `worder`'s `self.code`, which is that text) a bracket character may therefore be literal text of
+    an f-string: f"(" , or the halves of f"...(" f"...)".  Whoever pairs or counts brackets over that text must know where
+    the f-strings are.
+      (a) A whole-text regex scan (finditer / findall / search / split / sub) in rope.base.simplify or rope.base.worder
+          whose pattern can match a bracket and cannot match a quote reads, inside the loop over its matches, a value that
+          was collected from the string regions (`ignored_regions`) in the same function.
+      (b) A backward `while` search of the word finder that stops at an opening bracket hands every other character to a
+          method that (transitively, within the class) tests for quote characters, so a string is stepped over whole."""
+    from .. import rca
+    idx = ctx.idx
+    n_a = n_b = 0
+    for modname in ("rope.base.simplify", "rope.base.worder"):
+        u = next(u for u in idx.units.values() if u.modname == modname)
+        # compiled patterns by name: module level and class level
+        pats: Dict[str, str] = {}
+        for x in ast.walk(u.tree):
+            if isinstance(x, ast.Assign) and len(x.targets) == 1 and isinstance(x.targets[0], ast.Name) and isinstance(x.value, ast.Call) \
+                    and call_name(x.value) == "compile" and x.value.args:
+                p = const_str(x.value.args[0])
+                if p is not None:
+                    pats[x.targets[0].id] = p
+        for f in sorted(idx.functions.values(), key=lambda f: f.qualname):
+            if f.unit.modname != modname or isinstance(f.node, ast.Lambda):
+                continue
+            short = f.qualname.split(".", 2)[-1]
+            for c in calls_in(f.node):
+                if not (isinstance(c.func, ast.Attribute) and c.func.attr in ("finditer", "findall", "search", "split", "sub", "match")):
+                    continue
+                recv = c.func.value
+                pat = None
+                if isinstance(recv, ast.Name) and recv.id == "re" and c.args:
+                    pat = const_str(c.args[0])
+                elif isinstance(recv, ast.Name):
+                    pat = pats.get(recv.id)
+                elif isinstance(recv, ast.Attribute) and isinstance(recv.value, ast.Name) and recv.value.id in ("self", "cls"):
+                    pat = pats.get(recv.attr)
+                if pat is None:
+                    continue
+                try:
+                    nfa = rca.build(pat, erase_assertions=True)
+                except Exception:
+                    continue
+                if not any(rca.accepts(nfa, ch) for ch in "()[]{}") or any(rca.accepts(nfa, q) for q in "\"'"):
+                    continue
+                n_a += 1
+                derived = _region_derived(idx, f)
+                # the loop over the matches (or, for a single search, the rest of the function)
+                loop = next((x for x in walk_local(f.node) if isinstance(x, ast.For) and any(k is c for k in ast.walk(x.iter))), None)
+                scope = loop.body if loop is not None else f.node.body
+                used = {y.id for st in scope for y in ast.walk(st) if isinstance(y, ast.Name) and isinstance(y.ctx, ast.Load)} & derived
+                ok = bool(used)
+                res.add(rule, f"{short}|bracket-scan-knows-f-strings", ok, f"{f.unit.rel}:{c.lineno}",
+                        f"the scan reads {sorted(used)}, collected from the string regions" if ok else
+                        f"{short} scans the simplified text with `{ast.unparse(c)[:60]}` (pattern {pat!r} matches brackets) and never consults the string regions: "
+                        "f-strings are not blanked in that text, so a bracket in the literal part of one -- f\"(\" -- is paired with the code's brackets, and the "
+                        "lines or the expression after it are attributed to the wrong bracket", function=f.qualname, pattern=pat)
+    # (b) backward searches of the word finder
+    rf = idx.need_class("rope.base.worder._RealFinder")
+
+    def tests_quotes(m) -> bool:
+        for x in walk_local(m.node):
+            if isinstance(x, ast.Compare) and len(x.ops) == 1 and isinstance(x.ops[0], (ast.In, ast.Eq)):
+                s = const_str(x.comparators[0])
+                if s is not None and "'" in s and '"' in s:
+                    return True
+        return False
+
+    def reaches_quote_test(names: Set[str]) -> bool:
+        seen: Set[str] = set()
+        todo = list(names)
+        while todo:
+            nm = todo.pop()
+            if nm in seen or nm not in rf.methods:
+                continue
+            seen.add(nm)
+            m = rf.methods[nm]
+            if tests_quotes(m):
+                return True
+            todo.extend(k.func.attr for k in calls_in(m.node) if isinstance(k.func, ast.Attribute) and is_self_attr(k.func))
+        return False
+
+    for mname, m in sorted(rf.methods.items()):
+        for w in [x for x in walk_local(m.node) if isinstance(x, ast.While)]:
+            stops = []
+            for x in [w.test] + [y for st in w.body for y in ast.walk(st)]:
+                for cmp_ in ([x] if isinstance(x, ast.Compare) else [y for y in ast.walk(x) if isinstance(y, ast.Compare)] if x is w.test else []):
+                    s = const_str(cmp_.comparators[0]) if len(cmp_.ops) == 1 else None
+                    if s and set(s) <= set("([{") and isinstance(cmp_.left, ast.Subscript) and is_self_attr(cmp_.left.value, "code"):
+                        stops.append(cmp_)
+            if not stops:
+                continue
+            n_b += 1
+            called = {k.func.attr for st in w.body for k in ast.walk(st) if isinstance(k, ast.Call) and isinstance(k.func, ast.Attribute) and is_self_attr(k.func)}
+            ok = reaches_quote_test(called)
+            res.add(rule, f"_RealFinder.{mname}|backward-search-steps-over-strings", ok, f"{m.unit.rel}:{w.lineno}",
+                    "every character that is not the bracket searched for is handed to a method that recognises a string and steps over it whole" if ok else
+                    f"_RealFinder.{mname} walks back to an opening bracket character by character and no method it calls in the loop tests for quote characters: "
+                    "a bracket inside an f-string (kept in the simplified text) or the quote itself is taken for code", function=m.qualname)
+    res.floor(rule, "whole-text bracket scans", n_a, 1)
+    res.floor(rule, "backward bracket searches of the word finder", n_b, 2)
